@@ -28,7 +28,7 @@ func init() {
 			"Oracle: Sanitize, SanitizeBytes, SanitizeReader and SanitizeReaderToWriter give identical bytes for every non-blank input under every environment; blank input is returned identical by Sanitize and SanitizeBytes; the caller's []byte is unchanged; the two cmd binaries (built from /repo) print exactly the harness's reconstruction of their documented policy applied with Sanitize. " +
 			"non-trivial = distinct (policy, input, environment) runs whose input contains markup and was split at least once.",
 		Assumptions: []string{"the cmd binaries are built by bin/check from /repo's working tree into the per-run work directory"},
-		QuickBudget:  50, ThoroughBudget: 800,
+		QuickBudget: 50, ThoroughBudget: 800,
 		Run:    runC15,
 		Replay: replayC15,
 	})
@@ -39,7 +39,7 @@ func init() {
 			"and for every byte offset j<=n the reader delivers data[:j] and then a non-EOF error (six kinds: generic, io.ErrUnexpectedEOF, io.ErrClosedPipe, io.ErrNoProgress, a timeout error, a wrapped error). Oracle: the returned error is non-nil, the writer sees no call after the failing one, the accepted bytes are a prefix of the fault-free output, SanitizeReader returns an empty buffer on reader failure. " +
 			"non-trivial = distinct (policy, input, fault) runs in which the fault was actually reached.",
 		Assumptions: []string{"faults are injected at the io.Reader / io.Writer seam of the exported API only"},
-		QuickBudget:  50, ThoroughBudget: 800,
+		QuickBudget: 50, ThoroughBudget: 800,
 		Run:    runC16,
 		Replay: replayC16,
 	})
@@ -360,7 +360,8 @@ func runC15(c *run.Ctx) {
 			b   built
 		}{{ugcBin, build(specByName("cmd-ugc"))}, {emailBin, build(specByName("cmd-email"))}}
 		kk := 2
-		SeqsS(c, "c15cmd", fragCore, 0, kk, func(in []byte, _ []int) {
+		cmdAlpha := append(append([]string{}, fragCore...), "%", "%s %d", "100% sure", `<a href="/a%20b">`, "\n", "\r\n", "  ", "\t", "%!", "\x00", "é")
+		SeqsS(c, "c15cmd", cmdAlpha, 0, kk, func(in []byte, _ []int) {
 			for _, t := range tools {
 				want, pm := San(t.b.P, string(in))
 				if pm != "" {
